@@ -181,6 +181,62 @@ func buildFaultCtx(k int, sp FaultSpec, base string, build bool) (*faultCtx, err
 	return c, nil
 }
 
+// payloadWellFormed is an independent structural reader of the uncompressed
+// cache payload (format v6): version, entry count, then exactly that many
+// length-prefixed segments, each holding path, modification time and whole
+// footprints, with nothing left over. A faulted payload that still passes it
+// differs from a valid one only in content, which no reader can notice.
+func payloadWellFormed(p []byte) bool {
+	u16 := func(b []byte) int { return int(b[0])<<8 | int(b[1]) }
+	u32 := func(b []byte) int { return int(b[0])<<24 | int(b[1])<<16 | int(b[2])<<8 | int(b[3]) }
+	str := func(b []byte) int { // bytes taken by a length-prefixed string, -1 if it does not fit
+		if len(b) < 2 || len(b) < 2+u16(b) {
+			return -1
+		}
+		return 2 + u16(b)
+	}
+	if len(p) < 6 || u16(p) != 6 {
+		return false
+	}
+	count := u32(p[2:])
+	p = p[6:]
+	for i := 0; i < count; i++ {
+		if len(p) < 4 || len(p) < 4+u32(p) {
+			return false
+		}
+		seg := p[4 : 4+u32(p)]
+		p = p[4+u32(p):]
+		n := str(seg)
+		if n < 0 || len(seg) < n+8 {
+			return false
+		}
+		seg = seg[n+8:]
+		for len(seg) > 0 {
+			if n = str(seg); n < 0 || len(seg) < n+4 { // Location.File, index, instance
+				return false
+			}
+			seg = seg[n+4:]
+			if n = str(seg); n < 0 { // family
+				return false
+			}
+			seg = seg[n:]
+			if len(seg) < 2 || len(seg) < 2+34*u16(seg) { // rune pages
+				return false
+			}
+			seg = seg[2+34*u16(seg):]
+			if len(seg) < 1 || len(seg) < 1+4*int(seg[0]) { // scripts
+				return false
+			}
+			seg = seg[1+4*int(seg[0]):]
+			if len(seg) < 64+9 { // languages, aspect
+				return false
+			}
+			seg = seg[64+9:]
+		}
+	}
+	return len(p) == 0
+}
+
 // number of fault cases of a context
 func (sp FaultSpec) cases() int { return (sp.N + 1) + 4*sp.N + (sp.M + 1) + 4*sp.M }
 
@@ -215,7 +271,7 @@ func (c *faultCtx) faultCase(j int) (variant string, pos, val int, image []byte,
 		return "gz-byte", pos, val, img, true
 	case j < n+1+4*n+m+1:
 		pos = j - (n + 1 + 4*n)
-		return "pl-prefix", pos, 0, gz(c.P[:pos]), false
+		return "pl-prefix", pos, 0, gz(c.P[:pos]), !payloadWellFormed(c.P[:pos])
 	}
 	j -= n + 1 + 4*n + m + 1
 	pos, val = j/4, j%4
@@ -225,7 +281,7 @@ func (c *faultCtx) faultCase(j int) (variant string, pos, val int, image []byte,
 	}
 	pl := append([]byte(nil), c.P...)
 	pl[pos] = nb
-	return "pl-byte", pos, val, gz(pl), false
+	return "pl-byte", pos, val, gz(pl), !payloadWellFormed(pl)
 }
 
 // Budgets of the reader on a faulted file of length n: generous multiples of
@@ -233,6 +289,9 @@ func (c *faultCtx) faultCase(j int) (variant string, pos, val int, image []byte,
 func allocBudget(n int) uint64 { return 16<<20 + 4096*uint64(n) }
 
 const cpuBudget = 2.0 // seconds of thread CPU for one read
+
+// maxDeaths bounds the confirmed child deaths after which the enumeration stops.
+const maxDeaths = 12
 
 var digits = regexp.MustCompile(`[0-9]+`)
 
@@ -242,9 +301,10 @@ type meterCfg struct{ alloc bool }
 
 // judgeImage applies the reader laws and the recovery law to one left-over
 // cache file. strict: the image is a file-level fault (what a crash or a disk
-// can produce), so the scan that follows must equal the from-scratch scan.
-// Otherwise (a payload fault re-compressed with a valid checksum, which no
-// reader of this format can detect) every entry of the scan must be either the
+// can produce) or a payload fault that breaks the payload's own structure, so
+// the scan that follows must equal the from-scratch scan. Otherwise (a
+// structurally intact payload re-compressed with a valid checksum, which no
+// reader of this format can tell from a good one) every entry of the scan must be either the
 // from-scratch entry or an entry of the accepted index with the same path and
 // modification time (the cache key, DESIGN §7).
 func judgeImage(run *vrun.Run, c *faultCtx, variant string, pos, val int, image []byte, strict bool, mc meterCfg) {
@@ -293,6 +353,13 @@ func judgeImage(run *vrun.Run, c *faultCtx, variant string, pos, val int, image 
 	} else {
 		run.Cover("b:" + variant + ":accepted-altered")
 	}
+	if variant == "pl-byte" || variant == "pl-prefix" {
+		if strict {
+			run.Cover("b:" + variant + ":accepted-though-payload-structure-broken")
+		} else {
+			run.Cover("b:" + variant + ":accepted-payload-structure-intact")
+		}
+	}
 	canon := Rm.canonBytes()
 	h := vrun.Hash64("acc", c.k, strict, canon)
 	if c.seen[h] {
@@ -336,7 +403,7 @@ func judgeImage(run *vrun.Run, c *faultCtx, variant string, pos, val int, image 
 	}
 	if sameIndex(incM, c.freshM) {
 		run.Cover("b:recovery-equals-from-scratch")
-		if run.WantSample() && !same && len(c.freshM) > 0 {
+		if !same && len(c.freshM) > 0 && run.WantSample() && wantSample("b", 1) {
 			run.Sample(map[string]any{"part": "b/fault", "case": at, "accepted": "altered index: " + diffIndex(Rm, c.origM), "recovery": "scan(prev)=scan(nil)"})
 		}
 		return
@@ -361,6 +428,11 @@ func judgeImage(run *vrun.Run, c *faultCtx, variant string, pos, val int, image 
 			run.Violation("C16/recovery/mismatch", fmt.Sprintf("%s: entry %d of the scan with the accepted index is neither the from-scratch entry nor an entry of the accepted index with the same path and modification time: %s", at, i, diffFile(incM[i], c.freshM[i])), wit())
 			return
 		}
+	}
+	if strict && (variant == "pl-byte" || variant == "pl-prefix") {
+		run.Violation("C16/recovery/malformed-payload-content-reused",
+			fmt.Sprintf("%s: a payload whose length fields are inconsistent was accepted without error, and the following scan keeps the altered entry instead of rebuilding it: %s", at, diffIndex(incM, c.freshM)), wit())
+		return
 	}
 	if strict {
 		run.Violation("C16/recovery/corrupt-file-content-reused",
@@ -405,8 +477,25 @@ func faultWorker(run *vrun.Run, root string) {
 		os.Exit(3)
 	}
 	off := plan.offsets()
+	// A defect that kills the reader on thousands of inputs would restart
+	// this chunk once per input. Every restart carries the confirmed deaths
+	// in --skip: they are recorded in a shared directory and the enumeration
+	// is abandoned (inconclusive, never "held") once maxDeaths are known.
+	// Solo confirmation runs (one case) always execute.
+	os.MkdirAll("deaths", 0o755)
+	for idx := range run.Skip {
+		os.WriteFile(filepath.Join("deaths", fmt.Sprint(idx)), nil, 0o644)
+	}
+	abandoned := false
+	if ents, _ := os.ReadDir("deaths"); len(ents) >= maxDeaths && run.WorkerHi-run.WorkerLo > 1 {
+		abandoned = true
+		run.Inconclusive(fmt.Sprintf("fault enumeration chunk abandoned after %d confirmed child deaths", maxDeaths))
+	}
 	var cur *faultCtx
 	run.WorkerLoop(30, func(i int) {
+		if abandoned {
+			return
+		}
 		k := sort.SearchInts(off, i+1) - 1
 		if k < 0 || k >= len(plan.Specs) {
 			return
